@@ -36,6 +36,7 @@ type Faults struct {
 
 	Fired map[string]int
 	Armed bool // store faults apply (after session set-up)
+	Off   bool // no faults at all (prelude)
 }
 
 func (f *Faults) fire(kind string, fatal bool) {
@@ -58,6 +59,9 @@ func (f *Faults) Heal(w *sim.World) {
 
 func (f *Faults) install(w *sim.World) {
 	w.WritePlan = func(c *sim.Conn, p []byte) sim.WriteDecision {
+		if f.Off {
+			return sim.WriteDecision{Accept: -1}
+		}
 		r := w.Rng.Float64()
 		if f.Budget <= 0 {
 			r += f.PWriteFail + f.PBlackhole
@@ -88,6 +92,9 @@ func (f *Faults) install(w *sim.World) {
 		if avail == 0 {
 			return sim.ReadDecision{Then: "block"}
 		}
+		if f.Off {
+			return sim.ReadDecision{Deliver: -1}
+		}
 		r := w.Rng.Float64()
 		if f.Budget <= 0 {
 			r += f.PReadFail
@@ -111,14 +118,14 @@ func (f *Faults) install(w *sim.World) {
 		return sim.ReadDecision{Deliver: -1}
 	}
 	w.DialPlan = func(w *sim.World, attempt int) sim.DialDecision {
-		if f.Budget > 0 && w.Rng.Float64() < f.PDialFail {
+		if !f.Off && f.Budget > 0 && w.Rng.Float64() < f.PDialFail {
 			f.fire("dial.fail", true)
 			return sim.DialDecision{Err: errors.New("sim: dial refused")}
 		}
 		return sim.DialDecision{}
 	}
 	w.Broker.Connack = func(b *sim.Broker, c *sim.Conn, p *wire.Packet) []byte {
-		if f.Budget > 0 && w.Rng.Float64() < f.PRefuse {
+		if !f.Off && f.Budget > 0 && w.Rng.Float64() < f.PRefuse {
 			f.fire("connack.refuse", true)
 			switch w.Rng.Intn(3) {
 			case 0:
@@ -132,6 +139,9 @@ func (f *Faults) install(w *sim.World) {
 		return wire.Connack(sp, 0)
 	}
 	w.Broker.AckPolicy = func(b *sim.Broker, c *sim.Conn, p *wire.Packet, reply []byte) string {
+		if f.Off {
+			return ""
+		}
 		r := w.Rng.Float64()
 		if f.Budget <= 0 {
 			r += f.PAckLost
@@ -149,7 +159,7 @@ func (f *Faults) install(w *sim.World) {
 		return ""
 	}
 	w.Store.Fail = func(op string, key uint, n int) bool {
-		if f.Armed && f.Budget > 0 && op != "list" && w.Rng.Float64() < f.PStoreFail {
+		if !f.Off && f.Armed && f.Budget > 0 && op != "list" && w.Rng.Float64() < f.PStoreFail {
 			f.fire("store."+op, true)
 			return true
 		}
